@@ -463,7 +463,7 @@ def check_fold(fx, R):
         return
     it = itn[0]
     acc = [n for n, d in decls if d == ('.member:status', ('->', it))]
-    R.check(len(acc) == 1, 'T4', inst + ':seed', 'accumulator is not seeded with the first element\'s status: %s' % decls, 'seeded with the first element', fx.rel(f['loc']), 'E-STATE')
+    R.form(len(acc) == 1, 'T4', inst + ':seed', 'accumulator is not seeded with the first element\'s status: %s' % decls, 'seeded with the first element', fx.rel(f['loc']), 'E-STATE')
     if len(acc) != 1:
         return
     acc = acc[0]
@@ -484,7 +484,7 @@ def check_fold(fx, R):
     step_ok = body in ([('=', acc, (Q[:-2].replace('romea::core', '') + 'worse', acc, ('.member:status', ('->', it))))],
                        [('=', acc, ('worse', acc, ('.member:status', ('->', it))))],
                        [('=', acc, ('worse', ('.member:status', ('->', it)), acc))])
-    R.check(step_ok, 'T4', inst + ':step', 'loop body is %s, expected status = worse(status, it->status)' % (body,), 'status <- worse(status, element)', fx.rel(L['loc']), 'E-STATE')
+    R.form(step_ok, 'T4', inst + ':step', 'loop body is %s, expected status = worse(status, it->status)' % (body,), 'status <- worse(status, element)', fx.rel(L['loc']), 'E-STATE')
     if extra is not None:
         # early exit: `extra` is a predicate on the accumulator over the 4-value domain; stopping is only sound at the top element
         stop_at = []
@@ -504,10 +504,10 @@ def check_fold(fx, R):
                 'early exit only at the top element', fx.rel(L['loc']), 'E-ORD')
     else:
         R.holds('T4', inst + ':range', 'scans the whole list', fx.rel(L['loc']), 'E-STATE')
-    R.check(rets == [acc], 'T4', inst + ':return', 'returns %s' % (rets,), 'returns the accumulator', fx.rel(f['loc']), 'E-STATE')
+    R.form(rets == [acc], 'T4', inst + ':return', 'returns %s' % (rets,), 'returns the accumulator', fx.rel(f['loc']), 'E-STATE')
     gr = [deep_unwrap(sx(s_['e'])) for s_ in walk(g['body']) if s_.get('k') == 'Return']
     okg = len(gr) == 1 and gr[0] in (('==', ('worseStatus', 'diagnostics'), 'romea::core::DiagnosticStatus::OK'), ('==', 'romea::core::DiagnosticStatus::OK', ('worseStatus', 'diagnostics')))
-    R.check(okg, 'T4', 'allOK', 'allOK is %s, expected worseStatus(diagnostics) == OK' % (gr,), 'allOK = (worst == OK)', fx.rel(g['loc']), 'E-STATE')
+    R.form(okg, 'T4', 'allOK', 'allOK is %s, expected worseStatus(diagnostics) == OK' % (gr,), 'allOK = (worst == OK)', fx.rel(g['loc']), 'E-STATE')
 
 
 def eval_pred(p, acc, v, vals):
@@ -542,9 +542,13 @@ def check_concat(fx, R):
     want_i = [('.insert', i1, (b_, i2), (c_, i2)) for b_ in ('std::cbegin', 'std::begin') for c_ in ('std::cend', 'std::end')]
     dd = [s_ for s_ in ex if isinstance(s_, tuple) and len(s_) > 1 and s_[1] == d1]
     ii = [s_ for s_ in ex if isinstance(s_, tuple) and len(s_) > 1 and s_[1] == i1]
-    R.check(len(dd) == 1 and dd[0] in want_d, 'T5', 'operator+=:diagnostics', 'diagnostics are combined by %s, expected insert(end(report1), begin(report2), end(report2))' % (dd,),
-            'append all of report2.diagnostics at the end, in order', fx.rel(f['loc']), 'E-STATE')
-    R.check(len(ii) == 1 and ii[0] in want_i, 'T5', 'operator+=:info', 'info entries are combined by %s, expected insert(begin(report2.info), end(report2.info))' % (ii,),
+    R.form(len(dd) == 1 and dd[0] in want_d, 'T5', 'operator+=:diagnostics', 'diagnostics are combined by %s, expected insert(end(report1), begin(report2), end(report2))' % (dd,),
+            'append all of report2.diagnostics at the end, in order', fx.rel(f['loc']), 'E-STATE',
+            facts=[(len(dd) == 1 and isinstance(dd[0], tuple) and len(dd[0]) == 5 and dd[0][0] == '.insert' and dd[0][2] in [(b_, d1) for b_ in ('std::begin', 'std::cbegin', '.begin', '.cbegin')] and
+                    dd[0][3][1:] == (d2,) and dd[0][4][1:] == (d2,),
+                    'the diagnostics of report2 are inserted at the BEGINNING of report1: the aggregate no longer lists the diagnostics in the order the reports were added'),
+                   (not dd, 'no statement adds the diagnostics of report2 to report1')])
+    R.form(len(ii) == 1 and ii[0] in want_i, 'T5', 'operator+=:info', 'info entries are combined by %s, expected insert(begin(report2.info), end(report2.info))' % (ii,),
             'merge all info entries of report2', fx.rel(f['loc']), 'E-STATE')
     # every path must do both; a shortcut path (e.g. `report1 = report2`) is only sound when report1 is known to hold nothing at all
     top = f['body']['s'] if f['body']['k'] == 'Compound' else [f['body']]
@@ -575,4 +579,4 @@ def check_concat(fx, R):
                 R.holds('T5', 'operator+=:shortcut', 'overwrite only when the left report holds nothing', fx.rel(x['loc']), 'E-STATE')
         else:
             R.undecided('T5', 'operator+=:paths', 'conditional path `%s` with statements %s not recognised' % (cond, inner))
-    R.check(rets == ['report1'], 'T5', 'operator+=:return', 'returns %s' % (rets,), 'returns the left operand', fx.rel(f['loc']), 'E-STATE')
+    R.form(rets == ['report1'], 'T5', 'operator+=:return', 'returns %s' % (rets,), 'returns the left operand', fx.rel(f['loc']), 'E-STATE')
